@@ -18,9 +18,9 @@ CONSTANTS Pool,      \* sequence of species records a session can choose from
 
 VARIABLES sel,       \* chosen species: set of Pool indices
           rxset,     \* reactions added so far (set; the file order is SetToSeq's)
-          written,   \* the files have been written
-          docs       \* the written documents
-vars == <<sel, rxset, written, docs>>
+          written    \* the files have been written (what they say is a function of the
+                     \* mechanism at that moment: Docs below; it is not stored in the state)
+vars == <<sel, rxset, written>>
 
 SelSeq == SortInts(sel)
 Mech == [sp |-> [k \in 1..Len(SelSeq) |-> Pool[SelSeq[k]]], sites |-> Sites, rx |-> SetToSeq(rxset)]
@@ -61,12 +61,10 @@ RxSpecies(rx, k) == IF k > Len(rx) THEN <<>>
                     ELSE [i \in DOMAIN rx[k].lhs |-> rx[k].lhs[i][2]] \o [i \in DOMAIN rx[k].rhs |-> rx[k].rhs[i][2]]
                          \o RxSpecies(rx, k + 1)
 
-WriteGas(M) ==
-   LET g == SelectSeq(M.sp, LAMBDA s : s.ph = "G")
-   IN [els |-> SetToSeq(UNION {Range(M.sp[i].els) : i \in DOMAIN M.sp}),      \* a Python set
-       sp |-> [k \in DOMAIN g |-> g[k].name],
-       rx |-> Entries(M, TRUE)]
-WriteSurf(M) ==
+GasEls(M) == SetToSeq(UNION {Range(M.sp[i].els) : i \in DOMAIN M.sp})      \* a Python set
+GasSp(M) == LET g == SelectSeq(M.sp, LAMBDA s : s.ph = "G") IN [k \in DOMAIN g |-> g[k].name]
+WriteGas(M) == [els |-> GasEls(M), sp |-> GasSp(M), rx |-> Entries(M, TRUE)]
+SurfSites(M) ==
    LET found == Dedupe(RxSpecies(M.rx, 1))
        ads == SelectSeq(found, LAMBDA i : M.sp[i].ph # "G" /\ ~M.sp[i].bulk)
        order == Dedupe([k \in DOMAIN ads |-> M.sp[ads[k]].site])
@@ -74,68 +72,70 @@ WriteSurf(M) ==
                     LET mine == SelectSeq(ads, LAMBDA i : M.sp[i].site = order[k])
                     IN [name |-> M.sites[order[k]].name,
                         ads |-> [a \in DOMAIN mine |-> <<M.sp[mine[a]].name, M.sp[mine[a]].occ>>]]],
-       bulk |-> [k \in DOMAIN order |-> M.sites[order[k]].bulk],
-       rx |-> Entries(M, FALSE)]
+       bulk |-> [k \in DOMAIN order |-> M.sites[order[k]].bulk]]
+WriteSurf(M) == LET ss == SurfSites(M) IN [sites |-> ss.sites, bulk |-> ss.bulk, rx |-> Entries(M, FALSE)]
 WriteEA(M, gas) == LET rows == Entries(M, gas) IN [count |-> Len(rows), rows |-> rows]
 WriteTube(M, F) ==
    LET idx == SelectSeq([i \in DOMAIN M.sp |-> i], LAMBDA i : M.sp[i].name \in F)
    IN [count |-> Len(idx), rows |-> [k \in DOMAIN idx |-> [name |-> M.sp[idx[k]].name, tag |-> TagOf(M, idx[k])]]]
 
 \* ---- session
-NoDocs == [gas |-> [els |-> <<>>, sp |-> <<>>, rx |-> <<>>], surf |-> [sites |-> <<>>, bulk |-> <<>>, rx |-> <<>>],
-           eag |-> [count |-> 0, rows |-> <<>>], eas |-> [count |-> 0, rows |-> <<>>]]
 PoolOK(S) == /\ \A a, b \in S : a # b => Pool[a].name # Pool[b].name
              /\ \A a, b \in S : (a # b /\ Pool[a].bulk /\ Pool[b].bulk) => Pool[a].site # Pool[b].site
 Init == /\ sel \in {S \in SUBSET (1..Len(Pool)) : Cardinality(S) \in 1..MaxSp /\ PoolOK(S)}
         /\ rxset = {}
         /\ written = FALSE
-        /\ docs = NoDocs
 AddReaction == /\ ~written /\ Cardinality(rxset) < MaxRx
-               /\ \E r \in RxOf(Mech) :
-                     /\ \A q \in rxset : RxBags(Mech, q) # RxBags(Mech, r)
-                     /\ rxset' = rxset \cup {[r EXCEPT !.ads = IsAds(Mech, r)]}
-               /\ UNCHANGED <<sel, written, docs>>
+               /\ LET M == Mech IN
+                  \E r \in RxOf(M) :
+                     /\ \A q \in rxset : RxBags(M, q) # RxBags(M, r)
+                     /\ rxset' = rxset \cup {[r EXCEPT !.ads = IsAds(M, r)]}
+               /\ UNCHANGED <<sel, written>>
+\* write_gas, write_surf, write_EA (gas and surface) on the mechanism as it stands
 WriteAll == /\ ~written /\ rxset # {}
             /\ written' = TRUE
-            /\ docs' = [gas |-> WriteGas(Mech), surf |-> WriteSurf(Mech),
-                        eag |-> WriteEA(Mech, TRUE), eas |-> WriteEA(Mech, FALSE)]
             /\ UNCHANGED <<sel, rxset>>
 Next == AddReaction \/ WriteAll
 Spec == Init /\ [][Next]_vars
+Docs == [gas |-> WriteGas(Mech), surf |-> WriteSurf(Mech), eag |-> WriteEA(Mech, TRUE), eas |-> WriteEA(Mech, FALSE)]
 
-\* ---- what TLC checks
+\* ---- what TLC checks (on the states in which the files exist)
 Written == written
-Partition == Written => /\ PartitionOK(Mech, docs.gas.rx, TRUE) /\ PartitionOK(Mech, docs.surf.rx, FALSE)
-                        /\ PartitionOK(Mech, docs.eag.rows, TRUE) /\ PartitionOK(Mech, docs.eas.rows, FALSE)
-EachOnceReactions == Written => \A d \in {docs.gas.rx, docs.surf.rx, docs.eag.rows, docs.eas.rows} :
-                                   ReactionsOnce(Mech, d) /\ NoStrangers(Mech, d) /\ StickOK(Mech, d)
-EachOnceElements == Written => ElementsOK(Mech, docs.gas.els)
-EachOnceGasSpecies == Written => GasSpeciesOK(Mech, docs.gas.sp)
-EachOnceSites == Written => SitesOK(Mech, docs.surf.sites)
-EachOnceAdsorbates == Written => AdsorbatesOK(Mech, docs.surf.sites)
-EachOnceBulk == Written => BulkOK(Mech, docs.surf.bulk)
-CountsMatch == Written => CountOK(docs.eag) /\ CountOK(docs.eas)
+Partition == Written => LET M == Mech  g == Entries(M, TRUE)  s == Entries(M, FALSE) IN
+                        /\ PartitionOK(M, g, TRUE) /\ PartitionOK(M, s, FALSE)
+                        /\ PartitionOK(M, WriteEA(M, TRUE).rows, TRUE) /\ PartitionOK(M, WriteEA(M, FALSE).rows, FALSE)
+EachOnceReactions == Written => LET M == Mech IN
+                                \A d \in {Entries(M, TRUE), Entries(M, FALSE)} :
+                                   ReactionsOnce(M, d) /\ NoStrangers(M, d) /\ StickOK(M, d)
+EachOnceElements == Written => LET M == Mech IN ElementsOK(M, GasEls(M))
+EachOnceGasSpecies == Written => LET M == Mech IN GasSpeciesOK(M, GasSp(M))
+EachOnceSites == Written => LET M == Mech IN SitesOK(M, SurfSites(M).sites)
+EachOnceAdsorbates == Written => LET M == Mech IN AdsorbatesOK(M, SurfSites(M).sites)
+EachOnceBulk == Written => LET M == Mech IN BulkOK(M, SurfSites(M).bulk)
+CountsMatch == Written => LET M == Mech IN CountOK(WriteEA(M, TRUE)) /\ CountOK(WriteEA(M, FALSE))
 \* every reaction of the session, printed with every delimiter pair, reads back as itself;
 \* and the text carried by the written entries does
-ReadBack == Written =>
+ReadBack == Written => LET M == Mech IN
             /\ \A r \in rxset : \A sd \in SDelims, rd \in RDelims :
-                  ReadBackOK(NamedSide(Mech, r.lhs), NamedSide(Mech, r.rhs), sd, rd)
-            /\ \A d \in {docs.gas.rx, docs.surf.rx, docs.eag.rows, docs.eas.rows} :
-                             \A k \in DOMAIN d : LET p == ParseEq(d[k].text)
-                                                 IN p.ok /\ Bag(p.lhs) = d[k].lhs /\ Bag(p.rhs) = d[k].rhs
+                  ReadBackOK(NamedSide(M, r.lhs), NamedSide(M, r.rhs), sd, rd)
+            /\ \A d \in {Entries(M, TRUE), Entries(M, FALSE)} :
+                  \A k \in DOMAIN d : LET p == ParseEq(d[k].text)
+                                      IN p.ok /\ Bag(p.lhs) = d[k].lhs /\ Bag(p.rhs) = d[k].rhs
 \* tube_mole.inp for every set of named species (including names that are not species)
 Stranger == <<90, 90>>
-TubeInv == rxset = {} => \A F \in SUBSET ({Mech.sp[i].name : i \in DOMAIN Mech.sp} \cup {Stranger}) :
-              LET d == WriteTube(Mech, F) IN TubeOK(Mech, F, d) /\ CountOK(d)
+TubeInv == rxset = {} => LET M == Mech IN
+              \A F \in SUBSET ({M.sp[i].name : i \in DOMAIN M.sp} \cup {Stranger}) :
+                 LET d == WriteTube(M, F) IN TubeOK(M, F, d) /\ CountOK(d)
 DistinctInv == Written => DistinctRx(Mech)
 
 \* S->C: one record per written session, printed for replay into the real writers
-Expected == [gasrx |-> [k \in DOMAIN Mech.rx |-> IF AllGaseous(Mech, Mech.rx[k]) THEN 1 ELSE 0],
-             gassp |-> docs.gas.sp,
-             sites |-> [k \in DOMAIN docs.surf.sites |->
-                          [name |-> docs.surf.sites[k].name,
-                           ads |-> [a \in DOMAIN docs.surf.sites[k].ads |-> docs.surf.sites[k].ads[a][1]]]],
-             bulk |-> docs.surf.bulk,
-             neag |-> docs.eag.count, neas |-> docs.eas.count]
-EmitCases == Written => PrintT(<<"CASE", Mech, Expected>>)
+Expected(M, D) ==
+   [gasrx |-> [k \in DOMAIN M.rx |-> IF AllGaseous(M, M.rx[k]) THEN 1 ELSE 0],
+    gassp |-> D.gas.sp,
+    sites |-> [k \in DOMAIN D.surf.sites |->
+                 [name |-> D.surf.sites[k].name,
+                  ads |-> [a \in DOMAIN D.surf.sites[k].ads |-> D.surf.sites[k].ads[a][1]]]],
+    bulk |-> D.surf.bulk,
+    neag |-> D.eag.count, neas |-> D.eas.count]
+EmitCases == Written => PrintT(<<"CASE", Mech, Expected(Mech, Docs)>>)
 =============================================================================
